@@ -250,6 +250,13 @@ class LetEnv:
                         q = fp.get("pat") if isinstance(fp, dict) else None
                         if isinstance(q, dict) and q.get("k") == "Bind" and q["id"] not in assigned and fp.get("name"):
                             self.lets[q["id"]] = {"k": "Field", "name": fp["name"], "base": src, "ty": q.get("ty"), "sp": q.get("sp")}
+                # `let Self(a, b, c) = e;` / `let Version(a, b, c) = e;`: positional fields of a tuple struct
+                if pat_.get("k") == "TupleStruct" and not n.get("els") and n.get("k") == "Let" and not (pat_.get("path") or "").endswith(("::Some", "::Ok", "::Err")) and pat_.get("dd") is None:
+                    for i_, q in enumerate(pat_.get("pats", []) or []):
+                        while isinstance(q, dict) and q.get("k") == "Ref":
+                            q = q["pat"]
+                        if isinstance(q, dict) and q.get("k") == "Bind" and q["id"] not in assigned and not q.get("sub"):
+                            self.lets[q["id"]] = {"k": "Field", "name": str(i_), "base": src, "ty": q.get("ty"), "sp": q.get("sp")}
                 if pat_.get("k") == "Tuple" and not n.get("els") and strip(src).get("k") == "Tup" and len(strip(src)["elems"]) == len(pat_["pats"]):
                     for q, e_ in zip(pat_["pats"], strip(src)["elems"]):
                         if q.get("k") == "Bind" and q["id"] not in assigned:
@@ -432,9 +439,11 @@ class Facts:
         bs = [b for b in self.bodies.get(path, []) if b["kind"] in ("Fn", "AssocFn")]
         return bs[0] if len(bs) == 1 else None
 
-    def fn_bodies(self):
+    def fn_bodies(self, with_inlined=False):
+        """function bodies with a typed tree; helpers whose every use was inlined by the canonicalisation are skipped (their
+        code stands in their callers)"""
         for b in self.doc["bodies"]:
-            if b["kind"] in ("Fn", "AssocFn") and b.get("tir"):
+            if b["kind"] in ("Fn", "AssocFn") and b.get("tir") and (with_inlined or not b.get("fully_inlined")):
                 yield b
 
     def find_bodies(self, regex):
@@ -466,3 +475,22 @@ class Facts:
 
     def impls_of(self, self_ty, trait_suffix=None):
         return [i for i in self.items["impls"] if i["self"] == self_ty and (trait_suffix is None or i["trait"].endswith(trait_suffix))]
+
+
+def mutable_projections(root, ty_rx):
+    """field projections `base.f` in a typed tree whose base type matches ty_rx, each with whether the projected place is
+    borrowed mutably (auto-ref included, via the adjusted type), explicitly `&mut`-borrowed, or assigned to. For a chain
+    `a.b.c` over matching bases the outermost projection is judged. Yields (field node, is_mutable)."""
+    par = {}
+    for x in walk(root):
+        for c in children(x):
+            par[id(c)] = x
+    for x in walk(root):
+        if x.get("k") != "Field" or not ty_rx.match(x["base"].get("ty") or ""):
+            continue
+        first = x
+        p = par.get(id(x)) or {}
+        while p.get("k") in ("Field", "Index") and p.get("base") is x:
+            x, p = p, par.get(id(p)) or {}
+        mut = (x.get("aty") or "").startswith("&mut") or (p.get("k") == "AddrOf" and bool(p.get("mut"))) or (p.get("k") in ("Assign", "AssignOp") and p.get("l") is x)
+        yield first, mut
